@@ -366,6 +366,18 @@ def r12_4(prog, rep, snap):
         rep.fail(rid, "echsx/no-run-report", ex.loc(), "the --no-run edge records no message: the occurrence is not reported as not run")
 
 
+def r12_7(prog, rep, rid="R12.7"):
+    """Every occurrence that comes due is handed to the executor: each path through the timer callback passes run_task() - the real run
+    when a slot is free, the `not run` report otherwise.  An occurrence that is dropped silently is neither run nor reported."""
+    tc = prog.fn("task_cb", DAEMON)
+    if must_pass_to_exit(tc.cfg, (tc.cfg.entry, -1), lambda x: elem_has_call(x, "run_task")):
+        rep.ok(rid, "task_cb/every-occurrence-reaches-the-executor", tc.loc(), "every path through task_cb passes run_task()")
+    else:
+        rep.fail(rid, "task_cb/every-occurrence-reaches-the-executor", tc.loc(),
+                 "task_cb can return without calling run_task(): an occurrence that falls due while the limit is reached (or on that path) "
+                 "is neither started nor reported as not run")
+
+
 def run(prog, rep, tier, snap):
     rep.rule("R12.1", "every real run is counted: uncounted spawn implies no-run (guard implication)", 1)
     rep.call(r12_1, prog, rep)
@@ -376,6 +388,8 @@ def run(prog, rep, tier, snap):
     rep.call(r12_3, prog, rep, files)
     rep.rule("R12.4", "no-run flag agrees with the executor's options and bypasses the spawn", 5)
     rep.call(r12_4, prog, rep, snap)
+    rep.rule("R12.7", "every occurrence that comes due reaches the executor (run or reported not run)", 1)
+    rep.call(r12_7, prog, rep)
     from ..rules import watch
     rep.rule("R12.5", "child watchers whose callback means 'terminated' are registered for termination only", 1)
     rep.call(watch.child_watchers, prog, rep, "R12.5", "echsd.c")
